@@ -221,7 +221,9 @@ func runVecHistory(r *rand.Rand, p vecParams, o vecHistOpts, t *Trace) *Case {
 				t.Stat("vec.add_reuse_removed_id")
 			}
 			dim := p.dim
-			if r.Intn(25) == 0 {
+			// a failing add (wrong dimension) is made more likely when a removed id is re-used: a failed
+			// update must leave the id removed
+			if r.Intn(25) == 0 || (o.allowReuse && removed[id] && r.Intn(4) == 0) {
 				dim = p.dim + 1 - 2*r.Intn(2)
 				if dim <= 0 {
 					dim = p.dim + 1
